@@ -46,8 +46,13 @@ def _exec_index(mod, seed, tier, i):
     return mod.execute(sc)
 
 
-def same_clause_fails(mod, clause, timeout):
+def same_clause_fails(mod, clause, timeout, budget_s=90.0):
+    """Predicate for the minimiser; after budget_s seconds of shrinking it answers False (stop shrinking)."""
+    deadline = time.time() + budget_s
+
     def fails(sc):
+        if time.time() > deadline:
+            return False
         try:
             r = core.run_forked(mod.execute, (sc,), timeout=timeout)
         except core.HarnessError:
@@ -69,8 +74,11 @@ def run_check(prop, tier, seed, budget_s, n_runs, jobs):
     min_runs = params.get('min_runs', 1)
     print('check %s tier=%s VERIF_SEED=%d runs=%s budget_s=%s jobs=%d repo=%s' % (prop, tier, seed, n_runs, budget_s, jobs, core.REPO))
     sys.stdout.flush()
+    def is_bad(r):
+        return any(mod.known(r.get('scenario'), v) is None for v in r.get('violations', []))
     results, errors = core.run_batch(lambda i: _exec_index(mod, seed, tier, i), n_runs=n_runs, budget_s=budget_s,
-                                     jobs=jobs, run_timeout=run_timeout, wall_cap=wall_cap, min_runs=min_runs)
+                                     jobs=jobs, run_timeout=run_timeout, wall_cap=wall_cap, min_runs=min_runs,
+                                     is_bad=is_bad, stop_after_bad=params.get('stop_after_bad', 6))
     counters = {}
     digests = set()
     nontrivial_digests = set()
@@ -117,7 +125,7 @@ def run_check(prop, tier, seed, budget_s, n_runs, jobs):
             continue
         seen_sig.add(sig)
         reported += 1
-        fails = same_clause_fails(mod, v['clause'], run_timeout)
+        fails = same_clause_fails(mod, v['clause'], run_timeout, 90.0 if tier == 'quick' else 600.0)
         small = sc
         minimised = False
         try:
@@ -169,7 +177,7 @@ def run_check(prop, tier, seed, budget_s, n_runs, jobs):
     if hasattr(mod, 'finish_coverage'):
         mod.finish_coverage(coverage, counters)
     core.write_evidence(prop, tier, seed, coverage, wall, len(new), mod.ASSUMPTIONS)
-    print('%s: %d runs, %d distinct non-trivial, %d violation run(s), %d known-finding match(es), %d harness error(s), %.1fs'
+    print('%s: %d runs, %d distinct non-trivial, %d new violation(s), %d known-finding match(es), %d harness error(s), %.1fs'
           % (prop, n, len(nontrivial_digests), len(new), sum(counters.get('known_findings_matched', {}).values()), len(errors), wall))
     if new:
         return 1
@@ -211,7 +219,7 @@ def main():
     seed = int(os.environ.get('VERIF_SEED') or core.DEFAULT_SEED)
     if args.what == 'selftest':
         from sim import selftest
-        return selftest.main(args.sub, seed, args.jobs)
+        return selftest.main(args.sub, seed, args.jobs, args.runs)
     prop = args.what.upper()
     if prop not in PROPS:
         ap.error('unknown property %s (claimed: %s)' % (prop, ', '.join(PROPS)))
